@@ -502,8 +502,10 @@ func (ps *Pieces) Expire(bytes int64, available []uint16, f func(index uint32)) 
 func (ps *Pieces) Del() {
 	ps.mu.Lock()
 	defer ps.mu.Unlock()
+	// set first: del may release the lock, and AddData must not
+	// allocate for pieces that we have already discarded
+	ps.deleted = true
 	for i := uint32(0); i < uint32(len(ps.pieces)); i++ {
 		ps.del(i, true)
 	}
-	ps.deleted = true
 }
